@@ -4,7 +4,8 @@ cd /verif
 for d in seeded/C*-m*; do
   id=$(basename $d); p=${id%-m*}; k=${id#*-m}
   if git -C /repo apply --check /verif/$d/patch.diff 2>/dev/null; then
-    tools/eval_mutant.py $p $k 2>&1 | cut -c1-220
+    extra=""; [ -f $d/extra_checks ] && extra=$(cat $d/extra_checks)
+    tools/eval_mutant.py $p $k $extra 2>&1 | cut -c1-220
   else
     echo "$id: patch no longer applies to /repo HEAD (was written against 58dbbc0); earlier result kept"
   fi
